@@ -7,6 +7,7 @@
    hist engine, not by a theorem (the stopper finding P4 refutes it for
    arrays/text in general). *)
 From YV Require Proofs.GCWitness.
+From YV Require Import Base.Ticket Base.VV Proto.Server Proofs.FaultProofs.
 From YV Require Import Base.VV Crdt.RGAList Proto.Server Proofs.VVProofs Proofs.RGAProofs Proofs.ProtoProofs.
 
 Theorem C03_purge_view_invariant : forall g p,
@@ -53,3 +54,13 @@ Theorem C03_text_purged_stopper_refuted :
   YV.Proofs.GCWitness.tx_with_purge = Some [97; 120; 109; 99]%N.
 Proof. exact YV.Proofs.GCWitness.text_purged_stopper_changes_order. Qed.
 Print Assumptions C03_text_purged_stopper_refuted.
+
+(* finding P11 on the protocol model: handled in one piece a sync leaves no older change behind; with
+   the pull range read before, and the minimum after, another client's two syncs it does *)
+Theorem C03_stale_minimum_refuted :
+  undelivered_older p11_s1 p11_R (snd (fst (push_pull p11_s1 p11_qR))) = nil /\
+  undelivered_older p11_s3 p11_R (snd (fst (push_pull p11_s3 p11_qR))) = nil /\
+  map (fun st => h_actor (st_ch st)) (undelivered_older p11_s3 p11_R (stale_pull p11_s1 p11_s3 p11_qR)) = (p11_M :: nil) /\
+  p_vv (stale_pull p11_s1 p11_s3 p11_qR) = Some ((p11_R, 2%Z) :: (p11_M, 0%Z) :: nil).
+Proof. exact stale_minimum_outruns_the_pull. Qed.
+Print Assumptions C03_stale_minimum_refuted.
